@@ -184,7 +184,7 @@ def quant_tuple(t):
             "qdim": int(qz.quantizedDimension)}
 
 
-def canon(mb, with_data=True):
+def canon(mb, with_data=True, with_version=False):
     m = read(mb)
     out = {"subgraphs": [], "signatures": []}
     for sg in m.subgraphs:
@@ -199,6 +199,9 @@ def canon(mb, with_data=True):
             code = m.operatorCodes[op.opcodeIndex].builtinCode
             ops.append({"op": BO_NAME.get(code, code), "in": [tname(sg.tensors[i]) if i != -1 else None for i in op.inputs],
                         "out": [tname(sg.tensors[i]) if i != -1 else None for i in op.outputs]})
+            if with_version:   # the whole operator-code record the operator resolves to, not only its builtin code
+                oc = m.operatorCodes[op.opcodeIndex]
+                ops[-1]["code"] = [int(oc.builtinCode), int(oc.deprecatedBuiltinCode), int(oc.version), (oc.customCode or b"").decode("latin1")]
         out["subgraphs"].append({"tensors": tens, "ops": ops, "inputs": [tname(sg.tensors[i]) for i in sg.inputs],
                                  "outputs": [tname(sg.tensors[i]) for i in sg.outputs]})
     for sd in (m.signatureDefs or []):
